@@ -54,12 +54,13 @@ def cases(tier, seed):
         out.append({"id": f"polyline-{nm}", "kind": "polyline", "segment": nm, "weight": 3})
     for ax in range(3):
         out.append({"id": f"cuboid-mirror-{'xyz'[ax]}", "kind": "mirror", "axis": ax, "weight": 4})
+    out.append({"id": "cuboid-special-sets", "kind": "special", "weight": 2})
     return out
 
 
 def run_case(case, info):
     C = Case(case, info)
-    {"dipole": _dipole, "sphere": _sphere, "circle": _circle, "polyline": _polyline, "mirror": _mirror}[case["kind"]](C)
+    {"dipole": _dipole, "sphere": _sphere, "circle": _circle, "polyline": _polyline, "mirror": _mirror, "special": _special}[case["kind"]](C)
     return C.result()
 
 
@@ -236,6 +237,52 @@ def _mirror(C):
         C.note_inconclusive("path-budget", "path budget hit")
 
 
+def _special(C):
+    """the closed form may only be bypassed (B forced to 0) on the documented special set: an EDGE of the body.  Off the surface the field of
+    first principles is continuous, so a bypass anywhere else (e.g. on the straight extension of an edge) is a wrong value."""
+    from magpylib._src.fields import field_BH_cuboid as M
+
+    obs, dim, pol = symarr("observers", (1, 3)), symarr("dimension", (1, 3)), symarr("polarization", (1, 3))
+    CTX.pre = [toz(dim[0, i]) > 0 for i in range(3)] + [z3.Or(*[toz(pol[0, i]) != 0 for i in range(3)])]
+    inputs = list(obs.ravel()) + list(dim.ravel()) + list(pol.ravel())
+    called = []
+    orig = M.magnet_cuboid_Bfield
+
+    def spy(observers, dimensions, polarizations):
+        called.append(len(observers))
+        return orig(observers=observers, dimensions=dimensions, polarizations=polarizations)
+
+    def run():
+        called.clear()
+        M.magnet_cuboid_Bfield = spy
+        try:
+            M.BHJM_magnet_cuboid(field="B", observers=obs.copy(), dimension=dim.copy(), polarization=pol.copy())
+        finally:
+            M.magnet_cuboid_Bfield = orig
+        return sum(called)
+
+    def on_path(p):
+        C.paths += 1
+        if p.status != "ok":
+            return
+        if p.out >= 1:
+            C.obligations.append({"name": f"p{C.paths}.kernel-evaluated", "status": "unsat", "witness": "sat", "note": "general closed form used on this path"})
+            return
+        o = [toz(obs[0, k]) for k in range(3)]
+        h = [toz(dim[0, k]) / 2 for k in range(3)]
+        tol = z3.RealVal("1/100000000000000")  # 1e-14 relative: ten times the library's own surface tolerance
+        ab = lambda e: z3.If(e >= 0, e, -e)
+        on = [ab(ab(o[k]) - h[k]) <= tol * h[k] for k in range(3)]
+        within = [ab(o[k]) <= h[k] * (1 + tol) for k in range(3)]
+        on_edge = z3.Or(z3.And(on[1], on[2], within[0]), z3.And(on[0], on[2], within[1]), z3.And(on[0], on[1], within[2]))
+        C.oblige(f"p{C.paths}.bypass-only-on-an-edge", p.pc, z3.Not(on_edge), inputs=inputs, key="C01|cuboid|bypass-off-edge",
+                 on_model=lambda env: {"key": "C01|cuboid|bypass-off-edge", "replay": {"kind": "special", "env": env}},
+                 sample="Cuboid: the closed form is bypassed (B := 0) only for observers on an edge of the body (within 1e-14 relative)")
+
+    paths = explore(run, max_paths=120, on_path=on_path, seeds=C.seed_envs(inputs, n=1))
+    C.decisions += sum(len(p.decisions) for p in paths)
+
+
 # ----------------------------------------------------------------------------- replay (independent float formulas / quadrature-free)
 def replay(spec):
     import magpylib as m
@@ -295,6 +342,28 @@ def replay(spec):
         n1, n2 = np.linalg.norm(r1), np.linalg.norm(r2)
         ref = I / (4 * np.pi) * cr * (n1 + n2) / (n1 * n2 * (n1 * n2 + np.dot(r1, r2)))
         return not rel_close(out, ref, 1e-8, 1e-300), f"segment {spec['segment']} observer {o.tolist()} I={I}: H={out.tolist()} vs Biot-Savart {ref.tolist()}"
+    if kind == "special":
+        from magpylib._src.fields.field_BH_cuboid import BHJM_magnet_cuboid
+
+        o = np.array([[g(f"observers_0_{k}") for k in range(3)]])
+        d = np.array([[g(f"dimension_0_{k}", 1.0) for k in range(3)]])
+        J = np.array([[g(f"polarization_0_{k}", 0.5) for k in range(3)]])
+        if not np.any(J):
+            J = np.array([[0.3, 0.2, 1.0]])
+        inside_or_on = np.all(np.abs(o[0]) <= d[0] / 2 * (1 + 1e-9))
+        if inside_or_on:
+            return False, "observer on the body"
+        B0 = BHJM_magnet_cuboid(field="B", observers=o, dimension=d, polarization=J)[0]
+        # off the body the field is continuous: compare with the mean of close neighbours
+        rng = np.random.default_rng(0)
+        nb = []
+        for _ in range(6):
+            dlt = rng.normal(size=3)
+            dlt *= 1e-6 * np.linalg.norm(d) / np.linalg.norm(dlt)
+            nb.append(BHJM_magnet_cuboid(field="B", observers=o + dlt, dimension=d, polarization=J)[0])
+        Bn = np.mean(nb, axis=0)
+        jump = np.linalg.norm(B0 - Bn) / max(np.linalg.norm(Bn), 1e-300)
+        return bool(jump > 1e-3), f"cuboid d={d.tolist()} J={J.tolist()} observer {o.tolist()} (off the body): B={B0.tolist()} but neighbours at 1e-6 have B~{Bn.tolist()} (relative jump {jump:.2e})"
     if kind == "mirror":
         from magpylib._src.fields.field_BH_cuboid import BHJM_magnet_cuboid
 
